@@ -193,6 +193,8 @@ def replay_arith(ctx, model, what, prefix='arith', transform=None):
     states.append((5.5 * 150000, 0.0, 5.5 * 5.5 * 150000 + 150000 * 2.0, 0.0, 150000))
     states.append((5000.0 * 70000, 0.0, 5000.0 ** 2 * 70000 + 70000 * 3.6e-5, 0.0, 70000))
     states.append((5367.0, 0.0, 366209.0, 0.0, 100))
+    # exactly constant samples (variance exactly zero in floating point): [2,2,2], five zeros, four times -7.5
+    states += [(6.0, 0.0, 12.0, 0.0, 3), (0.0, 0.0, 0.0, 0.0, 5), (-30.0, 0.0, 225.0, 0.0, 4)]
     for st in states:
         for kind, L in battery_conf(model):
             cmd = '%s_ci_mean f64 %s %s %s %s %d %d %s' % (prefix, bits(st[0]), bits(st[1]), bits(st[2]), bits(st[3]), st[4], kind, bits(L))
@@ -214,8 +216,11 @@ def deviation(got, exp):
     """None if the native outcome matches the reference within a conditioning-aware tolerance."""
     variant, bounds, info = exp
     tol = max(1e-6, 64 * info.get('kappa', 1.0) * 2.0 ** -53)
-    if tol > 0.05:
+    exact_zero = info.get('sd') == 0.0       # an exactly constant sample: nothing cancels, every quantity is exact
+    if tol > 0.05 and not exact_zero:
         return None            # too ill-conditioned to decide: not a confirmation
+    if exact_zero:
+        tol = 1e-6
     if variant == 'err':
         return None if got[0] in ('err',) else None
     if got[0] != 'ok':
@@ -585,3 +590,51 @@ def replay_quantile_data(ctx, what):
                                                     'deviation': 'the sample is a permutation of 0..n-1 (value == rank): the bounds must be the ranks of ci_indices'})
                             return True, path, '%s -> %s, ranks %s' % (cmd, got, ref)
     return False, None, 'entry points return the order statistics at the ci_indices ranks on the permutation battery (n up to 8000)'
+
+
+def replay_quantile_ranks(ctx, what):
+    """C03 rank arithmetic, natively, including populations beyond 2^53 where `n as f64` is inexact: Stats::index(q) must be
+    min(floor(q * (n as f64)) as usize, n-1); the ranks of Stats::ci / ci_indices must be in range (lo <= hi < n) and, two-sided,
+    equal to that formula applied to the native two-sided Wilson bounds for (n, round(q*n))."""
+    import math
+    drv = Driver.get(ctx)
+    U = 2 ** 64 - 1
+    sat = lambda v: max(0, min(U, v))
+
+    def idx(p, n):
+        x = p * float(n)
+        return min(sat(int(math.floor(x))) if x == x and abs(x) != float('inf') else (U if x > 0 else 0), n - 1)
+    ns = [4, 5, 15, 100, 4097, 1000003, 2 ** 53 + 1, 2 ** 53 + 3, 2 ** 60 + 1, 2 ** 63 + 1025, U]
+    for n in ns:
+        for q in (0.0, 0.25, 0.5, 0.999, 1.0 - 2.0 ** -51, 1.0):
+            got = drv.run(['qindex %d %s' % (n, bits(q))])[0]
+            want = 'ok %d' % idx(q, n)
+            if got != want:
+                path = save(ctx, what, {'property': ctx.pid, 'what': what, 'command': 'qindex %d %r' % (n, q), 'native': got, 'reference': want,
+                                        'deviation': 'Stats::index is not min(floor(q*n) as usize, n-1)'})
+                return True, path, 'qindex %d %r: %s vs %s' % (n, q, got, want)
+        for q in (0.1, 0.5, 0.9, 1.0 - 2.0 ** -51):
+            for kind, L in ((0, 0.95), (1, 0.9), (2, 0.9), (0, 0.99)):
+                for cmdname in ('qstats_ci', 'qindices'):
+                    cmd = '%s %d %s %d %s' % (cmdname, n, bits(q), kind, bits(L))
+                    got = parse_result(drv.run([cmd])[0])
+                    if got[0] == 'panic':
+                        path = save(ctx, what, {'property': ctx.pid, 'what': what, 'command': cmd, 'native': got, 'deviation': 'panic'})
+                        return True, path, '%s panics' % cmd
+                    if got[0] != 'ok':
+                        continue
+                    r = got[2]
+                    bad = any(x >= n for x in r) or (len(r) == 2 and r[0] > r[1])
+                    ref = None
+                    if not bad and kind == 0:
+                        x = q * float(n)
+                        k = sat(int(x) if abs(x) >= 2.0 ** 52 else int(math.floor(x + 0.5)))      # f64::round (half away from zero), exact
+                        w = parse_result(drv.run(['wilson %d %d 0 %s' % (n, k, bits(L))])[0])
+                        if w[0] == 'ok' and w[1] == 'two':
+                            ref = [idx(w[2][0], n), idx(w[2][1], n)]
+                            bad = ref != list(r)
+                    if bad:
+                        path = save(ctx, what, {'property': ctx.pid, 'what': what, 'command': cmd, 'native': got, 'reference_ranks': ref,
+                                                'deviation': 'ranks out of range / not min(floor(p*n), n-1) of the native Wilson bounds'})
+                        return True, path, '%s -> %s (reference %s)' % (cmd, got, ref)
+    return False, None, 'Stats::index / Stats::ci ranks follow the formula and stay in range on the battery (n up to usize::MAX)'
